@@ -359,6 +359,35 @@ func c10Strict(j *rt.Job, rng *rt.Rand, codec *mnemref.Codec, r *rt.Rec) {
 				return
 			}
 		}
+		// a table word with letters put in front of it / behind it / inside it (skipped when that is a table word)
+		for k := 0; k < 40; k++ {
+			w := cp()
+			base := w[i]
+			if k%4 == 3 {
+				base = qrl.WordList[rng.Intn(4096)]
+			}
+			var tok string
+			switch k % 5 {
+			case 0:
+				tok = string(rune('a'+k%26)) + base
+			case 1:
+				tok = string(rune('a'+rng.Intn(26))) + string(rune('a'+rng.Intn(26))) + base
+			case 2:
+				tok = "notaword" + string(rune('a'+rng.Intn(26))) + base
+			case 3:
+				tok = base + string(rune('a'+rng.Intn(26))) + string(rune('a'+rng.Intn(26)))
+			default:
+				at := rng.Intn(len(base) + 1)
+				tok = base[:at] + string(rune('a'+rng.Intn(26))) + base[at:]
+			}
+			if inTable[tok] {
+				continue
+			}
+			w[i] = tok
+			if !c10Judge(r, codec, "word-with-extra-letters", join(w), size) {
+				return
+			}
+		}
 		// one letter changed (skipped when that is itself a table word)
 		{
 			w := cp()
